@@ -63,36 +63,40 @@ def confirm(wt, i, pid, name):
 
 
 def detect(name, checks, tier="quick"):
+  """run the checks against a scratch worktree of /repo HEAD carrying the seeded change (VERIF_REPO), so that /repo itself
+  stays untouched while other work goes on; `final` does the same by applying to /repo itself."""
   d = os.path.join(VERIF, "seeded", name)
-  rc, out = sh("git -C /repo status --porcelain --untracked-files=no")
-  if out.strip():
-    print("refusing: /repo has uncommitted changes"); return 2
-  rc, out = sh("git -C /repo apply %s" % os.path.join(d, "patch.diff"))
+  wt = "/tmp/seedwt_%s_%d" % (name, os.getpid())
+  rc, out = sh("git -C /repo worktree add -q --detach %s HEAD" % wt)
   if rc != 0:
-    rc, out = sh("git -C /repo apply -3 %s" % os.path.join(d, "patch.diff"))
-    if rc != 0:
-      sh("git -C /repo checkout -- . ; git -C /repo reset -q")
-      print("patch does not apply:", out[-500:]); return 2
-    sh("git -C /repo reset -q")
+    print("cannot create worktree", out); return 2
   results = {}
   try:
+    rc, out = sh("git apply %s" % os.path.join(d, "patch.diff"), cwd=wt)
+    if rc != 0:
+      rc, out = sh("git apply -3 %s" % os.path.join(d, "patch.diff"), cwd=wt)
+      if rc != 0:
+        print("patch does not apply:", out[-500:]); return 2
+    evd = tempfile.mkdtemp(prefix="seedev_")
+    env = dict(os.environ); env["VERIF_REPO"] = wt; env["VERIF_EVIDENCE_DIR"] = evd
     for c in checks:
       t0 = time.time()
-      rc, out = sh("./check %s --tier %s" % (c, tier), cwd=VERIF, timeout=7200)
+      rc, out = sh("./check %s --tier %s" % (c, tier), cwd=VERIF, timeout=7200, env=env)
       lines = [l for l in out.splitlines() if l.startswith(("VIOLATION", "INCONCLUSIVE", "OK ", "KNOWN-FINDING"))]
-      results[c] = {"exit": rc, "wall_s": round(time.time() - t0, 1), "lines": lines[:4],
+      results[c] = {"exit": rc, "wall_s": round(time.time() - t0, 1), "lines": [l.replace(evd, "<evidence>") for l in lines[:4]],
                     "detail": [l for l in out.splitlines() if l.startswith("  ")][:3]}
       print(name, c, "exit", rc, lines[:2])
+    shutil.rmtree(evd, ignore_errors=True)
   finally:
-    sh("git -C /repo checkout -- .")
+    sh("git -C /repo worktree remove --force %s" % wt)
   mp = os.path.join(d, "meta.json")
   meta = json.load(open(mp)) if os.path.exists(mp) else {"name": name}
   meta.setdefault("detection", {})
   for c, r in results.items():
     meta["detection"]["%s/%s" % (c, tier)] = r
   meta["detected_by"] = sorted({k.split("/")[0] for k, r in meta["detection"].items() if r["exit"] == 1})
+  meta.setdefault("what_i_ran", []).append("checks %s (%s) with VERIF_REPO = scratch worktree of /repo HEAD %s + patch.diff" % (checks, tier, sh("git -C /repo log --format=%h -1")[1].strip()))
   json.dump(meta, open(mp, "w"), indent=1)
-  # restore evidence files of the checks just run on the mutated tree? they are rewritten on the next unchanged run
   return 0
 
 
